@@ -482,6 +482,8 @@ class ExprMixin:
     def to_str(self, v, st):
         if isinstance(v.t, T._Str):
             return v
+        if isinstance(v.t, T.Opt) and isinstance(v.t.t, T._Str):
+            return SV(T.Str, z3.If(v.t.is_none(v.z), z3.StringVal('None'), v.t.val(v.z)))
         if isinstance(v.t, T._Int):
             return self.call_spec_or_uf('int_to_str', [v], st)
         raise Unsupported('str() of %s' % v.t)
@@ -682,6 +684,9 @@ class ExprMixin:
                     return self.call_contract(pc, [obj], {}, st, n)
             fid = self.eng.fid(attr, t.cls if isinstance(t, T.Ref) else None)
             ft = self.eng.field_type(fid)
+            if attr in getattr(self.eng.prop, 'optional_attrs', ()) and not self.spec:
+                # an attribute that may be absent: reading it raises AttributeError (hasattr / has-bit)
+                self.raise_if(st, z3.Not(z3.Select(st.h(self.eng.k_has(fid)), obj.z)), 'AttributeError', 'missing attribute %s' % attr)
             z = self.rd(st, self.eng.k_field(fid), obj.z)
             if ft.reflike and (not self.spec or not self.involves_bound([z])):
                 st.assume(z <= st.h(('alloc',)))
